@@ -18,6 +18,7 @@
 package main
 
 import (
+	"encoding/json"
 	"fmt"
 	"math"
 	"math/big"
@@ -185,6 +186,7 @@ func coreUniverse() []any {
 // ext: strings and structures that matter to particular natives only
 func extUniverse() []any {
 	return dedup([]any{
+		bigOf("1" + strings.Repeat("0", 400)), bigOf("-1" + strings.Repeat("0", 400)),
 		0.5, -0.5, 1.5e-9, 4.5, -2.5, 1425599507, 1425599507.678, -86400.5, 2147483648, bigOf("3037000500"), 100000, 1e19, -1e19, 9007199254740992.0,
 		"b", "A b", "Ab\u00e9Z", "\u00a0a\u3000", "\u2003", "a\u0085", "\xe3\x80", "\xe3\x80\x80\x80", "\xed\xa0\x80", "\xf0\x9f\x98\x80", "漢字", "a b c", "aXbXc", ",", "a,b, c",
 		"-0", "1e2", ".5", "1.", "+1", "-.5e-3", "0x1", "1e", "1e400", "-1e400", "1e-400", "00012", "123456789012345678901234567890", "nan", "1 ", "1.2.3", "1_0",
@@ -278,6 +280,11 @@ func natives() []native {
 	sort.Slice(out, func(i, j int) bool { return out[i].name < out[j].name })
 	return out
 }
+
+// the math functions the model computes exactly (Model/Native/Math.lean)
+var isMath1 = map[string]bool{"floor": true, "ceil": true, "round": true, "nearbyint": true, "rint": true, "trunc": true, "fabs": true, "significand": true, "logb": true}
+var isMath2 = map[string]bool{"copysign": true, "drem": true, "remainder": true, "fdim": true, "fmax": true, "fmin": true, "fmod": true, "nextafter": true, "nexttoward": true,
+	"ldexp": true, "scalb": true, "scalbln": true}
 
 // natives whose two arguments are all they look at (argFunc2 over an ignored input)
 var ignoresInput = map[string]bool{"_index": true, "_add": true, "_subtract": true, "_multiply": true, "_divide": true, "_modulo": true,
@@ -455,6 +462,39 @@ func main() {
 			}
 		}
 	}
+	// float sweep for the math functions with an exact model and the numeric natives: format
+	// thresholds, subnormals, ±2^53, halves (rounding ties), random bit patterns
+	fl := common.InterestingFloats()
+	fl = append(fl, 0.5, 1.5, 2.5, -0.5, -1.5, -2.5, 0.49999999999999994, 4503599627370495.5, 4503599627370496.5, -4503599627370497.5,
+		math.Copysign(0, -1), math.NaN(), math.Inf(1), math.Inf(-1), 1e-320, -1e-320, 2.2250738585072009e-308, 3, -3, 7, 0.75, 1e22, 123456789.125)
+	for i := 0; i < ctx.N(150, 3000); i++ {
+		fl = append(fl, common.RandFloat(r))
+	}
+	small := []any{0, 1, -1, 2, 3, -3, 10, 52, 53, -52, 1023, 1024, -1022, -1074, -1075, 2000, -2000, 0.5, 2.5, math.NaN(), math.Inf(1), math.Inf(-1), math.Copysign(0, -1), 1e-7, 1e300}
+	for _, n := range nats {
+		switch {
+		case n.info.Argcount == 1 && (isMath1[n.name] || n.name == "frexp" || n.name == "modf" || n.name == "abs" || n.name == "length" || n.name == "tostring" || n.name == "tojson" ||
+			n.name == "gmtime" || n.name == "isnormal" || n.name == "isnan" || n.name == "isinfinite" || n.name == "_negate" || n.name == "tonumber"):
+			for _, f := range fl {
+				record(n, tuple{f, nil})
+			}
+		case n.info.Argcount == 4 && isMath2[n.name]:
+			for i, a := range fl {
+				for _, b := range small {
+					record(n, tuple{nil, []any{a, b}})
+				}
+				for k := 0; k < 6; k++ {
+					record(n, tuple{nil, []any{a, fl[(i*7+k*13+1)%len(fl)]}})
+				}
+			}
+		case n.name == "fma":
+			for i, a := range fl {
+				for k := 0; k < 8; k++ {
+					record(n, tuple{nil, []any{a, fl[(i*5+k*11+3)%len(fl)], fl[(i*3+k*17+7)%len(fl)]}})
+				}
+			}
+		}
+	}
 	// random larger values
 	opts := common.DefaultGen
 	opts.NonFinite = true
@@ -496,10 +536,40 @@ func main() {
 	builtinJqOracle(ctx)
 	t2 := time.Now()
 	lawsOracle(ctx)
+	replayFilter(ctx)
 	ctx.Res.Notes = append(ctx.Res.Notes,
 		fmt.Sprintf("phases: native calls + carrier swap %.0fs, driver %.0fs, builtin-jq %.0fs, laws %.0fs", tCalls.Sub(t0).Seconds(), t1.Sub(tCalls).Seconds(), t2.Sub(t1).Seconds(), time.Since(t2).Seconds()),
 		"calls not made (see distribution skipped:*): string repeats above 100 kB, setpath indices in [20000, 2^29), Bessel orders |n| > 1000 — math.Jn runs a recurrence of n steps, so `gojq -n 'jn(1e12; 1.5)'` does not return in any reasonable time (observation, not judged by this check)")
 	ctx.Finish()
+}
+
+// replayFilter: `bin/check C03 --replay FILE` re-runs the whole (deterministic, seeded) check and
+// keeps only the violation whose key the replay file names, so that the file's finding is
+// confirmed or reported gone.
+func replayFilter(ctx *common.Ctx) {
+	if ctx.Replay == "" {
+		return
+	}
+	b, err := os.ReadFile(ctx.Replay)
+	if err != nil {
+		ctx.Errorf("replay: %v", err)
+		return
+	}
+	var rf struct {
+		Key string `json:"key"`
+	}
+	if err := json.Unmarshal(b, &rf); err != nil || rf.Key == "" {
+		ctx.Errorf("replay: %s has no violation key", ctx.Replay)
+		return
+	}
+	var kept []common.Violation
+	for _, v := range ctx.Res.Violations {
+		if v.Key == rf.Key {
+			kept = append(kept, v)
+		}
+	}
+	ctx.Res.Violations = kept
+	ctx.Res.Notes = append(ctx.Res.Notes, fmt.Sprintf("replay of %s: violation %s %s", ctx.Replay, rf.Key, map[bool]string{true: "reproduced", false: "NOT reproduced"}[len(kept) > 0]))
 }
 
 func canonList(xs []any) []string {
